@@ -103,6 +103,45 @@ pub enum Topo {
     DualV6,
     /// the same with three local clients
     DualV6Three,
+    /// SOCKS5 only: one local socket, ONE association, a target A that answers exchange 0
+    /// ("question-1") only `UNSEND_DELAY_MS` after it got it. As soon as A has question-1 (its own
+    /// log), the same local client sends ONE datagram to a second destination that the server
+    /// cannot send to; then the answer of A must still reach the local client (a datagram that
+    /// cannot be sent is lost like on a plain UDP socket, it must not take other exchanges down),
+    /// and exchange 2 ("question-2", to A again) must reach A from the same server-side address
+    /// as question-1 did. Question-1 is transmitted ONCE (a retransmission would mask the loss of
+    /// its answer). The variants are the second destinations:
+    /// DOMAINNAME `no-such-host.invalid` (never resolves, RFC 6761)
+    UnsendName,
+    /// 127.0.0.1, port 0 (sendto: EINVAL)
+    UnsendPort0,
+    /// the limited broadcast address 255.255.255.255:9 (sendto: EACCES without SO_BROADCAST, or no route)
+    UnsendBroadcast,
+    /// DOMAINNAME with the octets ff fe 2e 65 78 61 6d 70 6c 65 (`\xff\xfe.example`: legal in RFC 1928, not UTF-8)
+    UnsendNotUtf8,
+    /// control: the second destination is a second target of the harness (reachable, it answers)
+    UnsendControl,
+}
+
+/// the second destination of an unsendable-destination topology
+#[derive(Clone, Copy, Debug, PartialEq, Eq)]
+pub enum SecondDst {
+    /// DOMAINNAME header (ATYP 3) with these octets and this port
+    Name(&'static [u8], u16),
+    /// IPv4 header (ATYP 1)
+    V4([u8; 4], u16),
+    /// the second target of the harness
+    Target,
+}
+
+impl SecondDst {
+    pub fn describe(self) -> String {
+        match self {
+            SecondDst::Name(n, p) => format!("DOMAINNAME (ATYP 3) {} = \"{}\", port {p}", vcommon::report::hex(n), n.escape_ascii()),
+            SecondDst::V4(ip, p) => format!("{}:{p} (ATYP 1)", std::net::Ipv4Addr::from(ip)),
+            SecondDst::Target => "a second target of the harness on 127.0.0.1 (reachable; it answers at once)".into(),
+        }
+    }
 }
 
 /// testing aid: the probe of the dual-stack wildcard address reports failure (what a machine
@@ -180,6 +219,22 @@ pub const FAMILIES_FIRST_TX_MS: u64 = 500;
 pub const GAP_EXTRA_S: u64 = 2;
 /// how long the first datagram after the idle gap may take to the target (no retransmission before)
 pub const GAP_FIRST_TX_MS: u64 = 2000;
+/// length of the payloads of the unsendable-destination scenarios
+pub const UNSEND_LEN: usize = 32;
+/// how long target A of an unsendable-destination scenario waits before it answers question-1
+pub const UNSEND_DELAY_MS: u64 = 700;
+/// how long the ONE transmission of question-1 gets to show up at target A (after that the
+/// scenario goes on with the loss tolerance of everywhere else and judges nothing definitively)
+pub const UNSEND_FIRST_TX_MS: u64 = 5000;
+/// how long after target A SENT its answer to question-1 the local client waits for it before
+/// it goes on with question-2 (the answer still counts if it is there at the end of the scenario)
+pub const UNSEND_LOST_AFTER_MS: u64 = 3000;
+/// question-2 must reach target A less than UDP_PRUNE_TIMEOUT minus this after question-1 was
+/// sent for the two server-side source addresses to be compared (an idle flow may be forgotten)
+pub const UNSEND_PRUNE_MARGIN_S: u64 = 2;
+/// the keys of the unsendable-destination scenarios (a variant name follows)
+pub const UNSEND_LOST_KEY: &str = "udp.reply.lost-after-unsendable-destination";
+pub const UNSEND_PORT_KEY: &str = "udp.source-port-changed-after-unsendable-destination";
 /// leg number inside the payload of the control exchange of the stray-datagram scenarios (no real leg has it)
 const CONTROL_LEG: usize = 3;
 
@@ -201,6 +256,21 @@ impl Topo {
     /// IPv6, for the control connection and for the relay; both tiers; only where a socket bound
     /// to [::] is reachable over the loopback address of that family)
     pub const DUAL_LISTENER: [Topo; 4] = [Topo::DualV4, Topo::DualV4Three, Topo::DualV6, Topo::DualV6Three];
+    /// the unsendable-destination topologies (SOCKS5 UDP only, one payload length, both tiers;
+    /// about `UNSEND_DELAY_MS` + the start of a tunnel of wall time each, mostly asleep); the last one is the control
+    pub const UNSENDABLE: [Topo; 5] = [Topo::UnsendName, Topo::UnsendPort0, Topo::UnsendBroadcast, Topo::UnsendNotUtf8, Topo::UnsendControl];
+    /// the second destination of an unsendable-destination topology, its name inside violation
+    /// keys and topology names, and why the server cannot send to it
+    pub fn unsendable(self) -> Option<(SecondDst, &'static str, &'static str)> {
+        match self {
+            Topo::UnsendName => Some((SecondDst::Name(b"no-such-host.invalid", 9), "unresolvable-name", "the name does not resolve")),
+            Topo::UnsendPort0 => Some((SecondDst::V4([127, 0, 0, 1], 0), "port-0", "sendto() to port 0 fails with EINVAL")),
+            Topo::UnsendBroadcast => Some((SecondDst::V4([255, 255, 255, 255], 9), "limited-broadcast", "sendto() to the limited broadcast address fails with EACCES on a socket without SO_BROADCAST, or there is no route")),
+            Topo::UnsendNotUtf8 => Some((SecondDst::Name(b"\xff\xfe.example", 9), "non-utf8-name", "the octets of the name are not UTF-8, nothing resolves them")),
+            Topo::UnsendControl => Some((SecondDst::Target, "control-reachable-destination", "CONTROL: the server can send to it")),
+            _ => None,
+        }
+    }
     /// Some(the local application uses IPv6) for the dual-stack-listener topologies
     pub fn dual_listener(self) -> Option<bool> {
         match self {
@@ -236,7 +306,7 @@ impl Topo {
     }
     /// the scenario may make a control exchange through a fresh association
     pub fn has_control(self) -> bool {
-        self.stray().is_some() || self.two_families()
+        self.stray().is_some() || self.two_families() || self.unsendable().is_some()
     }
     pub fn slow(self) -> bool {
         matches!(self, Topo::Steady | Topo::Idle | Topo::IdleGap)
@@ -270,10 +340,15 @@ impl Topo {
             Topo::DualV4Three => "dual-stack-listener-ipv4-application-3-clients",
             Topo::DualV6 => "dual-stack-listener-ipv6-application-1-client",
             Topo::DualV6Three => "dual-stack-listener-ipv6-application-3-clients",
+            Topo::UnsendName => "1-association-slow-target-then-unsendable-destination-unresolvable-name",
+            Topo::UnsendPort0 => "1-association-slow-target-then-unsendable-destination-port-0",
+            Topo::UnsendBroadcast => "1-association-slow-target-then-unsendable-destination-limited-broadcast",
+            Topo::UnsendNotUtf8 => "1-association-slow-target-then-unsendable-destination-non-utf8-name",
+            Topo::UnsendControl => "1-association-slow-target-then-unsendable-destination-control-reachable-destination",
         }
     }
     pub fn parse(s: &str) -> Option<Self> {
-        Self::ALL.into_iter().chain(Self::SLOW).chain(Self::STRAY).chain(Self::FAMILIES).chain(Self::DUAL_LISTENER).find(|e| e.name() == s)
+        Self::ALL.into_iter().chain(Self::SLOW).chain(Self::STRAY).chain(Self::FAMILIES).chain(Self::DUAL_LISTENER).chain(Self::UNSENDABLE).find(|e| e.name() == s)
     }
 }
 
@@ -298,6 +373,8 @@ impl UdpCase {
             "stray_datagram_hex": self.topo.stray().map(|(d, _)| vcommon::report::hex(d)),
             "socks_listener": self.topo.dual_listener().map(|_| "[::]:PORT (remote specification [::]:PORT:socks; the UDP relay of an association is bound to [::]:0)"),
             "application_uses": self.topo.dual_listener().map(|v6| if v6 { "[::1] for the control connection, for its UDP socket and (BND.ADDR being unspecified) for the relay address" } else { "127.0.0.1 for the control connection, for its UDP socket and (BND.ADDR being unspecified) for the relay address" }),
+            "slow_target_answers_exchange_0_after_ms": self.topo.unsendable().map(|_| UNSEND_DELAY_MS),
+            "second_destination_of_exchange_1": self.topo.unsendable().map(|(d, _, why)| format!("{} ({why}); sent once, as soon as target A has exchange 0", d.describe())),
             "targets": if self.topo.two_families() { json!((0..self.exchanges()).map(|q| if (self.target_idx(0, q) == 0) == (self.topo == Topo::TwoFamilies) { "127.0.0.1:P (ATYP 1)" } else { "[::1]:Q (ATYP 4)" }).collect::<Vec<_>>()) } else { Value::Null },
             "payload_rule": "payload length of exchange seq = len, except in the varying-lengths topology (len, 3, len+500, 0, len+1); request(len, leg, seq): len 1 -> [0x40|leg<<4|seq]; len>=2 -> [0xC0|leg, seq, xorshift64* stream]; reply = request XOR mask bytewise, mask 0xA5 for target A and 0x5A for target B; exchange seq goes to target seq%2 in the two-target topologies; see c01_udp.rs",
             "requests_hex": (0..self.legs().len()).map(|l| (0..self.exchanges().min(4)).map(|q| { let r = request(self.len_at(q), l, q); vcommon::report::hex(&r[..r.len().min(16)]) }).collect::<Vec<_>>()).collect::<Vec<_>>(),
@@ -321,6 +398,7 @@ impl UdpCase {
             (Topo::TwoFamilies | Topo::TwoFamilies6, _) => vec![(0, 0)],
             (Topo::DualV4 | Topo::DualV6, _) => vec![(0, 0)],
             (Topo::DualV4Three | Topo::DualV6Three, _) => vec![(0, 0), (1, 1), (2, 2)],
+            (Topo::UnsendName | Topo::UnsendPort0 | Topo::UnsendBroadcast | Topo::UnsendNotUtf8 | Topo::UnsendControl, _) => vec![(0, 0)],
         }
     }
     /// number of request datagrams (with distinct payloads) a leg sends
@@ -342,7 +420,7 @@ impl UdpCase {
             // (a domain-typed header would need a name for [::1]; the IP-typed headers say it all)
             return self.kind == UKind::SocksIp;
         }
-        if self.topo.dual_listener().is_some() {
+        if self.topo.dual_listener().is_some() || self.topo.unsendable().is_some() {
             return self.kind.socks();
         }
         !(matches!(self.topo, Topo::TwoPorts | Topo::TwoHosts) || self.topo.stray().is_some()) || self.kind.socks()
@@ -362,7 +440,9 @@ impl UdpCase {
         }
     }
     pub fn n_targets(&self) -> usize {
-        if matches!(self.topo, Topo::TwoPorts | Topo::TwoHosts | Topo::TwoFamilies | Topo::TwoFamilies6) { 2 } else { 1 }
+        // (unsendable-destination topologies: question-1 to A, one datagram to the second
+        // destination -- a target only in the control variant --, question-2 to A)
+        if matches!(self.topo, Topo::TwoPorts | Topo::TwoHosts | Topo::TwoFamilies | Topo::TwoFamilies6 | Topo::UnsendControl) { 2 } else { 1 }
     }
     /// Which target exchange `seq` of a leg is addressed to (A, B, A for the two-target topologies).
     pub fn target_idx(&self, _leg: usize, seq: usize) -> usize {
@@ -413,6 +493,12 @@ pub struct UdpStats {
     pub retransmissions: u64,
     pub duplicates: u64,
     pub target_sources: u64,
+    /// unsendable-destination scenarios in which the definitive judgement could be made: question-1
+    /// was transmitted once, target A received it, the datagram to the second destination left
+    /// the local client while A's answer was outstanding, and A sent its answer
+    pub unsendable_judged: u64,
+    /// ... of which: the answer reached the local client only after `UNSEND_LOST_AFTER_MS` (late, not lost)
+    pub unsendable_answer_late: u64,
 }
 
 pub struct UdpOutcome {
@@ -442,6 +528,49 @@ async fn recv_loop(sock: Arc<UdpSocket>, log: Log, note: Arc<Notify>, answer: Op
         }
         lk(&log).push((src, data));
         note.notify_waiters();
+    }
+}
+
+/// What the slow target of an unsendable-destination scenario did, and when: a datagram received
+/// from `peer` (`answer_sent` false), or the answer to the request `req` sent to `peer`.
+struct TargetEvent {
+    at: Instant,
+    peer: SocketAddr,
+    req: Vec<u8>,
+    answer_sent: bool,
+}
+
+type EvLog = Arc<Mutex<Vec<TargetEvent>>>;
+
+/// Target A of the unsendable-destination scenarios: like `recv_loop` with an answer, but the
+/// answer to `slow_req` is sent `delay` later (the target goes on receiving in between), and every
+/// receipt and every answer that was handed to the kernel is recorded with its time and peer.
+async fn slow_target_loop(sock: Arc<UdpSocket>, log: Log, events: EvLog, mask: u8, slow_req: Vec<u8>, delay: Duration) {
+    let mut buf = vec![0u8; 65536 + 64];
+    loop {
+        let Ok((n, src)) = sock.recv_from(&mut buf).await else {
+            // (the ICMP error of an answer sent to a socket that is gone shows up here)
+            tokio::time::sleep(Duration::from_millis(1)).await;
+            continue;
+        };
+        let data = buf[..n].to_vec();
+        lk(&events).push(TargetEvent { at: Instant::now(), peer: src, req: data.clone(), answer_sent: false });
+        lk(&log).push((src, data.clone()));
+        let wait = if data == slow_req { delay } else { Duration::ZERO };
+        let (sock, events) = (sock.clone(), events.clone());
+        tokio::spawn(async move {
+            if !wait.is_zero() {
+                tokio::time::sleep(wait).await;
+            }
+            let reply = reply_of(&data, mask);
+            // (a pending ICMP error of an earlier answer is reported by one send and cleared)
+            for _ in 0..3 {
+                if sock.send_to(&reply, src).await.is_ok() {
+                    lk(&events).push(TargetEvent { at: Instant::now(), peer: src, req: data, answer_sent: true });
+                    return;
+                }
+            }
+        });
     }
 }
 
@@ -506,6 +635,19 @@ struct LegResult {
     /// its target while a fresh association reached it (descriptions; these exchanges were
     /// completed by a retransmission, the one that was not is in `missing`)
     family_lost: Vec<String>,
+    /// unsendable-destination scenarios: (key, description) of what the definitive judgement found
+    /// (deadline-type failures: they count only when they show again with the scenario run alone)
+    unsendable: Vec<(String, String)>,
+    /// unsendable-destination scenarios: the preconditions of the definitive judgement held
+    /// (see `UdpStats::unsendable_judged`), and the answer to question-1 came late
+    unsendable_judged: bool,
+    unsendable_late: bool,
+}
+
+impl LegResult {
+    fn new() -> Self {
+        LegResult { sent: 0, sent_to: [0; 2], retrans: 0, completed: 0, wrong: 0, missing: None, first_tx_after_gap_lost: None, family_lost: Vec::new(), unsendable: Vec::new(), unsendable_judged: false, unsendable_late: false }
+    }
 }
 
 /// the key of "a datagram to a target of the other address family is not delivered"
@@ -626,7 +768,7 @@ async fn control_exchange(ctx: &StrayCtx, target: &(SocketAddr, Option<String>),
 #[allow(clippy::too_many_arguments)]
 async fn run_leg(leg: usize, case: UdpCase, sock: Arc<UdpSocket>, log: Log, note: Arc<Notify>, entry: SocketAddr, targets: Vec<(SocketAddr, Option<String>)>, short: bool, tlogs: Vec<Log>, stray_ctx: Option<StrayCtx>) -> LegResult {
     let socks = case.kind.socks();
-    let mut res = LegResult { sent: 0, sent_to: [0; 2], retrans: 0, completed: 0, wrong: 0, missing: None, first_tx_after_gap_lost: None, family_lost: Vec::new() };
+    let mut res = LegResult::new();
     let mut earlier: Vec<Vec<u8>> = Vec::new();
     let waits = if short { WAITS_SHORT_MS } else { WAITS_MS };
     let io = LegIo { sock, log, note, socks, entry };
@@ -786,13 +928,245 @@ async fn run_leg(leg: usize, case: UdpCase, sock: Arc<UdpSocket>, log: Log, note
     res
 }
 
+/// The unsendable-destination scenarios (see `Topo::UnsendName`): question-1 to the slow target A
+/// (ONE transmission), one datagram to the second destination while A's answer is outstanding,
+/// the answer of A, question-2 to A (usual loss tolerance).
+///
+/// Definitive judgement, made only on positive evidence that a loss is not network loss:
+///  * `UNSEND_LOST_KEY`: A's own log shows that it received question-1 and that it SENT its answer
+///    (and to which address); the local client does not have that answer `UNSEND_LOST_AFTER_MS`
+///    after A sent it and still does not have it at the end of the scenario; and the path works:
+///    question-2, sent afterwards through the same association, is answered by A (every hop
+///    of the way back keeps the order of datagrams, so an answer to question-1 that was merely
+///    slow would be there before the answer to question-2) -- or, if question-2 is not answered
+///    either, a FRESH association at the same entry point exchanges a datagram with A;
+///  * `UNSEND_PORT_KEY`: A's own log shows question-2 coming from another address than question-1
+///    although less than UDP_PRUNE_TIMEOUT - `UNSEND_PRUNE_MARGIN_S` passed between the local
+///    client's sending question-1 and A's receiving question-2 (the flow cannot have gone idle).
+/// `completed` counts the steps gone through; it stays below 3 only when the generic verdict
+/// (or the lost-answer verdict with an unanswered question-2) applies.
+#[allow(clippy::too_many_arguments)]
+async fn run_unsendable(case: UdpCase, sock: Arc<UdpSocket>, log: Log, note: Arc<Notify>, entry: SocketAddr, targets: Vec<(SocketAddr, Option<String>)>, short: bool, events: EvLog, ctx: StrayCtx) -> LegResult {
+    let mut res = LegResult::new();
+    let Some((dst, variant, why)) = case.topo.unsendable() else {
+        res.missing = Some(("machinery".into(), "not an unsendable-destination topology".into(), false));
+        return res;
+    };
+    let fam = case.kind.family();
+    let waits = if short { WAITS_SHORT_MS } else { WAITS_MS };
+    let io = LegIo { sock, log, note, socks: true, entry };
+    let (a, a_dom) = targets[0].clone();
+    let reqs: Vec<Vec<u8>> = (0..3).map(|q| request(case.len_at(q), 0, q)).collect();
+    let want1 = reply_of(&reqs[0], MASKS[0]);
+    // (only the control variant ever sees it)
+    let want_b = reply_of(&reqs[1], MASKS[1]);
+    let want2 = reply_of(&reqs[2], MASKS[0]);
+    let wire1 = proto::build_udp_request(a, a_dom.as_deref(), &reqs[0]);
+    let wire2 = proto::build_udp_request(a, a_dom.as_deref(), &reqs[2]);
+    let wire_b = match dst {
+        SecondDst::Name(name, port) => {
+            let mut v = vec![0u8, 0, 0, 3, name.len() as u8];
+            v.extend_from_slice(name);
+            v.extend_from_slice(&port.to_be_bytes());
+            v.extend_from_slice(&reqs[1]);
+            v
+        }
+        SecondDst::V4(ip, port) => proto::build_udp_request(SocketAddr::from((ip, port)), None, &reqs[1]),
+        SecondDst::Target => match targets.get(1) {
+            Some((b, b_dom)) => proto::build_udp_request(*b, b_dom.as_deref(), &reqs[1]),
+            None => {
+                res.missing = Some(("machinery".into(), "the control variant has no second target".into(), false));
+                return res;
+            }
+        },
+    };
+    // target A's own log: first receipt of a request, and the answer to it that A handed to the kernel
+    let at_a = |req: &[u8]| lk(&events).iter().find(|e| !e.answer_sent && e.req == req).map(|e| (e.at, e.peer));
+    let answer_of_a = |req: &[u8]| lk(&events).iter().find(|e| e.answer_sent && e.req == req).map(|e| (e.at, e.peer));
+    let have1 = |io: &LegIo| lk(&io.log).iter().any(|(src, raw)| *src == entry && client_view(true, raw).is_ok_and(|p| p == want1));
+    let delay = Duration::from_millis(UNSEND_DELAY_MS);
+
+    // ---- 1. question-1, ONE transmission
+    let base1 = lk(&io.log).len();
+    let t_send1 = Instant::now();
+    if io.sock.send_to(&wire1, entry).await.is_err() {
+        res.missing = Some(("machinery".into(), "cannot send question-1".into(), false));
+        return res;
+    }
+    res.sent += 1;
+    res.sent_to[0] += 1;
+    let mut r1 = None;
+    while r1.is_none() && t_send1.elapsed() < Duration::from_millis(UNSEND_FIRST_TX_MS) {
+        r1 = at_a(&reqs[0]);
+        if r1.is_none() {
+            tokio::time::sleep(Duration::from_millis(1)).await;
+        }
+    }
+    // the preconditions of the definitive judgement
+    let mut single = r1.is_some();
+    let mut ok1: Option<bool> = None;
+    if r1.is_none() {
+        // not at A: network loss as far as anybody can tell; the loss tolerance of everywhere else
+        ok1 = transmit(&io, &wire1, &want1, 0, base1, &[], &waits[1..], 1, 0, &mut res).await;
+        if ok1.is_none() {
+            return res;
+        }
+    }
+    // ---- 2. ONE datagram to the second destination, while the answer of A is outstanding
+    if io.sock.send_to(&wire_b, entry).await.is_err() {
+        res.missing = Some(("machinery".into(), "cannot send the datagram for the second destination".into(), false));
+        return res;
+    }
+    let t_b = Instant::now();
+    res.sent += 1;
+    if dst == SecondDst::Target {
+        res.sent_to[1] += 1;
+    }
+    // ---- 3. the answer of A: until UNSEND_LOST_AFTER_MS after A sent it
+    let mut a_sent: Option<(Instant, SocketAddr)> = None;
+    if let (None, Some((r1_at, _))) = (ok1, r1) {
+        loop {
+            let notified = io.note.notified();
+            ok1 = answered(&io.log, true, entry, &want1, 0, base1, std::slice::from_ref(&want_b));
+            if ok1.is_some() {
+                break;
+            }
+            if a_sent.is_none() {
+                a_sent = answer_of_a(&reqs[0]);
+            }
+            let until = match a_sent {
+                Some((at, _)) => at + Duration::from_millis(UNSEND_LOST_AFTER_MS),
+                // (A has not sent yet; it is the harness's own task, so this is a matter of scheduling)
+                None => r1_at + delay + Duration::from_millis(UNSEND_FIRST_TX_MS),
+            };
+            let now = Instant::now();
+            if now >= until {
+                break;
+            }
+            let _ = tokio::time::timeout((until - now).min(Duration::from_millis(20)), notified).await;
+        }
+        if a_sent.is_none() {
+            a_sent = answer_of_a(&reqs[0]);
+        }
+        if ok1.is_none() && a_sent.is_none() {
+            // A never answered (its answer task did not get to run or could not send): nothing
+            // can be said about the subject; question-1 is retransmitted like any other request
+            single = false;
+            ok1 = transmit(&io, &wire1, &want1, 0, base1, std::slice::from_ref(&want_b), &waits[1..], 1, 0, &mut res).await;
+            if ok1.is_none() {
+                return res;
+            }
+        }
+    }
+    let waited1_ms = a_sent.map_or(0, |(at, _)| at.elapsed().as_millis());
+    let judged = single && a_sent.is_some_and(|(at, _)| t_b < at);
+    res.unsendable_judged = judged;
+    if ok1 == Some(false) {
+        res.wrong += 1;
+    }
+    // ---- 4. question-2, with the usual loss tolerance; a fresh association as control if it gets no answer
+    let base2 = lk(&io.log).len();
+    let earlier = vec![want1.clone(), want_b.clone()];
+    let mut ok2 = transmit(&io, &wire2, &want2, 2, base2, &earlier, &waits[..3], 0, 0, &mut res).await;
+    let mut fresh: Option<Result<u64, String>> = None;
+    if ok2.is_none() {
+        fresh = Some(control_exchange(&ctx, &targets[0], MASKS[0], 0, &waits).await);
+        ok2 = transmit(&io, &wire2, &want2, 2, base2, &earlier, &waits[3..], 3, 0, &mut res).await;
+    }
+    if ok2 == Some(false) {
+        res.wrong += 1;
+    }
+    let q2_tx = res.sent_to[0] - 1;
+    if ok1.is_none() && !judged && !have1(&io) {
+        // the answer of A is missing but the datagram for the second destination left too late
+        // (after A had answered): nothing definitive; question-1 is retransmitted like any other request
+        ok1 = transmit(&io, &wire1, &want1, 0, base1, &[want_b.clone(), want2.clone()], &waits[1..], 1, 0, &mut res).await;
+        if ok1.is_none() {
+            res.completed = 0;
+            return res;
+        }
+    }
+    // ---- judgement: the answer to question-1
+    let history = |r1: (Instant, SocketAddr), s1: (Instant, SocketAddr)| {
+        format!(
+            "one local socket, ONE association: question-1 was sent ONCE to target A ({a}), which answers it {UNSEND_DELAY_MS} ms after it got it; A received it from {} (+{} ms) and, {} ms after that, the same local client sent ONE datagram through the same association to {} ({why}); A then SENT its answer to {} (+{} ms; A's own log)",
+            r1.1,
+            r1.0.saturating_duration_since(t_send1).as_millis(),
+            t_b.saturating_duration_since(r1.0).as_millis(),
+            dst.describe(),
+            s1.1,
+            s1.0.saturating_duration_since(t_send1).as_millis()
+        )
+    };
+    let lost1 = ok1.is_none() && !have1(&io);
+    if ok1.is_none() && !lost1 {
+        // it was there in the end: late, not lost
+        res.unsendable_late = true;
+    }
+    if let (true, true, Some(r1), Some(s1)) = (lost1, judged, r1, a_sent) {
+        let path = match (&ok2, &fresh) {
+            (Some(_), _) => Some(format!("although question-2, sent afterwards through the SAME association to the same target, was answered ({q2_tx} transmission(s)): every hop of the way back keeps the order of datagrams, so the answer to question-1 was not slow, it was not delivered")),
+            (None, Some(Ok(rtt_ms))) => Some(format!("question-2, sent afterwards through the same association, got no reply either ({q2_tx} transmissions over {} ms), although in between a FRESH association at the same SOCKS entry point exchanged a datagram with target A in {rtt_ms} ms (the path works)", waits.iter().sum::<u64>())),
+            _ => None,
+        };
+        match path {
+            Some(p) => {
+                let d = format!(
+                    "{}; that answer had not reached the local client {waited1_ms} ms later (limit {UNSEND_LOST_AFTER_MS} ms) and was still missing at the end of the scenario ({} ms after A sent it), {p}. A datagram that cannot be sent is lost like on a plain UDP socket; it must not take the client's other exchanges down",
+                    history(r1, s1),
+                    s1.0.elapsed().as_millis()
+                );
+                if ok2.is_some() {
+                    res.unsendable.push((format!("{UNSEND_LOST_KEY}.{variant}"), d));
+                } else {
+                    res.missing = Some((format!("{UNSEND_LOST_KEY}.{variant}"), d, true));
+                }
+            }
+            None => {
+                // nothing works any more: not specific to this association; the generic verdict
+                res.completed = 0;
+                res.missing = Some((
+                    format!("udp.reply.missing.{fam}.{}", len_class(case.size)),
+                    format!(
+                        "{}; neither that answer ({} ms) nor an answer to question-2 ({q2_tx} transmissions over {} ms) reached the local client, and a fresh association at the same SOCKS entry point did not reach target A either ({})",
+                        history(r1, s1),
+                        s1.0.elapsed().as_millis(),
+                        waits.iter().sum::<u64>(),
+                        fresh.as_ref().and_then(|f| f.as_ref().err()).map_or("?", String::as_str)
+                    ),
+                    true,
+                ));
+                return res;
+            }
+        }
+    }
+    // ---- judgement: the server-side source address of the association's datagrams at A
+    if let (Some((_, src1)), Some((at2, src2))) = (at_a(&reqs[0]), at_a(&reqs[2])) {
+        let span = at2.saturating_duration_since(t_send1);
+        if src1 != src2 && span + Duration::from_secs(UNSEND_PRUNE_MARGIN_S) < prune_timeout() {
+            res.unsendable.push((
+                format!("{UNSEND_PORT_KEY}.{variant}"),
+                format!(
+                    "one local socket, ONE association, one target A ({a}): question-1 reached A from {src1}; then the same local client sent ONE datagram to {} ({why}); question-2, sent to A afterwards, reached A from {src2}, {} ms after the local client sent question-1 (UDP_PRUNE_TIMEOUT is {} s: the flow never went idle). The datagrams of one association to one target come from one address (an answer finds its way back only to the address the request came from; the server's socket of the flow has to stay); the answer to question-1 {}",
+                    dst.describe(),
+                    span.as_millis(),
+                    prune_timeout().as_secs(),
+                    if lost1 { "never reached the local client" } else { "reached the local client" }
+                ),
+            ));
+        }
+    }
+    res.completed = if ok2.is_some() { 3 } else { 2 };
+    res
+}
+
 /// The steady sender: one datagram per second, a silent target, one reply at the end.
 #[allow(clippy::too_many_arguments)]
 async fn run_steady(case: UdpCase, sock: Arc<UdpSocket>, log: Log, note: Arc<Notify>, entry: SocketAddr, target: (SocketAddr, Option<String>), tsock: Arc<UdpSocket>, tlog: Log, short: bool) -> LegResult {
     let socks = case.kind.socks();
     let fam = case.kind.family();
     let nx = case.exchanges();
-    let mut res = LegResult { sent: 0, sent_to: [0; 2], retrans: 0, completed: 0, wrong: 0, missing: None, first_tx_after_gap_lost: None, family_lost: Vec::new() };
+    let mut res = LegResult::new();
     let wire_of = |seq: usize| {
         let req = request(case.len_at(seq), 0, seq);
         if socks { proto::build_udp_request(target.0, target.1.as_deref(), &req) } else { req }
@@ -928,7 +1302,7 @@ pub async fn run_udp(envr: &Env, case: &UdpCase, deadline_s: u64, short_waits: b
         if n_targets == 2 {
             // same host string, other port -- or other host string (127.0.0.2), same port -- or the other address family
             let second = match case.topo {
-                Topo::TwoPorts | Topo::TwoFamilies6 => UdpSocket::bind("127.0.0.1:0").await,
+                Topo::TwoPorts | Topo::TwoFamilies6 | Topo::UnsendControl => UdpSocket::bind("127.0.0.1:0").await,
                 Topo::TwoFamilies => UdpSocket::bind("[::1]:0").await,
                 _ => UdpSocket::bind(("127.0.0.2", pa)).await,
             };
@@ -944,7 +1318,13 @@ pub async fn run_udp(envr: &Env, case: &UdpCase, deadline_s: u64, short_waits: b
     let target = target_addrs[0];
     let tlogs: Vec<Log> = (0..n_targets).map(|_| Arc::new(Mutex::new(Vec::new()))).collect();
     let mut tasks = Vec::new();
+    // (unsendable-destination scenarios: what target A did, and when)
+    let events: EvLog = Arc::new(Mutex::new(Vec::new()));
     for (k, ts) in tsocks.iter().enumerate() {
+        if k == 0 && case.topo.unsendable().is_some() {
+            tasks.push(tokio::spawn(slow_target_loop(ts.clone(), tlogs[0].clone(), events.clone(), MASKS[0], request(case.len_at(0), 0, 0), Duration::from_millis(UNSEND_DELAY_MS))));
+            continue;
+        }
         tasks.push(tokio::spawn(recv_loop(ts.clone(), tlogs[k].clone(), Arc::new(Notify::new()), if case.topo == Topo::Steady { None } else { Some(MASKS[k]) })));
     }
 
@@ -1063,6 +1443,10 @@ pub async fn run_udp(envr: &Env, case: &UdpCase, deadline_s: u64, short_waits: b
                 continue;
             }
             let stray_ctx = case.topo.has_control().then(|| StrayCtx { proxy: SocketAddr::from(([127, 0, 0, 1], leases[0].port)), client_done: client_done.clone(), deadline });
+            if let (true, Some(ctx)) = (case.topo.unsendable().is_some(), stray_ctx.clone()) {
+                handles.push(tokio::spawn(run_unsendable(case.clone(), socks_v[*si].clone(), logs[*si].clone(), notes[*si].clone(), entry_addrs[*ei], targets.clone(), short_waits, events.clone(), ctx)));
+                continue;
+            }
             handles.push(tokio::spawn(run_leg(l, case.clone(), socks_v[*si].clone(), logs[*si].clone(), notes[*si].clone(), entry_addrs[*ei], targets.clone(), short_waits, tlogs.clone(), stray_ctx)));
         }
         for h in handles {
@@ -1136,7 +1520,7 @@ pub async fn run_udp(envr: &Env, case: &UdpCase, deadline_s: u64, short_waits: b
                         data.len(),
                         target_addrs[to],
                         match case.topo {
-                            Topo::TwoPorts => "same host string, other port",
+                            Topo::TwoPorts | Topo::UnsendControl => "same host string, other port",
                             Topo::TwoFamilies | Topo::TwoFamilies6 => "other address family",
                             _ => "other host string, same port",
                         }
@@ -1286,6 +1670,11 @@ pub async fn run_udp(envr: &Env, case: &UdpCase, deadline_s: u64, short_waits: b
         for d in &r.family_lost {
             push(FAMILY_KEY.into(), d.clone(), false);
         }
+        for (k, d) in &r.unsendable {
+            push(k.clone(), d.clone(), true);
+        }
+        stats.unsendable_judged += u64::from(r.unsendable_judged);
+        stats.unsendable_answer_late += u64::from(r.unsendable_late);
         if r.completed < nx {
             if let Some((k, d, dl)) = &r.missing {
                 push(k.clone(), format!("{d}; datagrams received by the local client from its entry point: {}", recv_per_leg[l]), *dl);
